@@ -177,7 +177,9 @@ def classify(case, exc):
     if not isinstance(exc, Violation): return None
     if not G.has_ref_corral(case["desc"]): return None
     msg = str(exc)
-    if "differs from the in-process run: interactions: row" in msg:
+    # any difference confined to the interactions table (values, and - since a leaked learner has made more updates - also a
+    # late learning_info column or the rows of a finish()ed learner) of such an experiment
+    if "differs from the in-process run: interactions:" in msg:
         return FID_INPLACE
     return None
 
